@@ -16,6 +16,8 @@ import (
 	"fmt"
 	"google.golang.org/grpc/metadata"
 	"io"
+	"io/fs"
+	"net"
 	"net/http"
 	"net/http/httptest"
 	"net/url"
@@ -161,6 +163,22 @@ type ErrorSpec struct {
 	Fault     bool    `json:"fault,omitempty"`
 	Type      string  `json:"type,omitempty"`  // custom: Go type name in the service package
 	Value     value.V `json:"value,omitempty"` // custom: field values
+	// Sentinel: (plain, wrapped-plain) the error is this well-known error
+	// value of the standard library instead of errors.New(Message)
+	Sentinel string `json:"sentinel,omitempty"`
+}
+
+// Sentinels are well-known error values a service method may return (directly
+// or wrapped) like any other Go error.
+var Sentinels = map[string]error{
+	"canceled":       context.Canceled,
+	"deadline":       context.DeadlineExceeded,
+	"eof":            io.EOF,
+	"unexpected-eof": io.ErrUnexpectedEOF,
+	"closed-pipe":    io.ErrClosedPipe,
+	"not-exist":      fs.ErrNotExist,
+	"abort-handler":  http.ErrAbortHandler,
+	"net-closed":     net.ErrClosed,
 }
 
 // AuthSpec configures the recording Auther.
@@ -1109,8 +1127,14 @@ func buildError(e *ErrorSpec, def *ServiceDef) error {
 	case "wrapped-service":
 		return fmt.Errorf("wrapped: %w", svcErr())
 	case "plain":
+		if se := Sentinels[e.Sentinel]; se != nil {
+			return se
+		}
 		return errors.New(e.Message)
 	case "wrapped-plain":
+		if se := Sentinels[e.Sentinel]; se != nil {
+			return fmt.Errorf("wrapped: %w", se)
+		}
 		return fmt.Errorf("wrapped: %w", errors.New(e.Message))
 	case "namer":
 		return namer{e.Name, e.Message}
